@@ -112,17 +112,17 @@ type Loop struct {
 }
 
 type FnCtx struct {
-	filling   []fillRec
-	atNewSeen map[string]bool
+	filling    []fillRec
+	atNewSeen  map[string]bool
 	pendingInv []pendInv
-	fillTypes map[string]bool
-	V    *Verifier
-	U    *Universe
-	fn   *ssa.Function
-	con  *Contract
-	prop string
-	D    *Decls
-	pfx  string
+	fillTypes  map[string]bool
+	V          *Verifier
+	U          *Universe
+	fn         *ssa.Function
+	con        *Contract
+	prop       string
+	D          *Decls
+	pfx        string
 
 	arrSorts    map[string]Sort
 	env         map[ssa.Value]*Bind
